@@ -7,6 +7,7 @@ from checks.coords import SymCoords
 from symx import skeletons as SK
 
 SKELS = ["cat3", "two_tree", "two_parents", "disjoint_node", "two_roots", "mutation_above_root",
+         "local_root_mutation",
          "unary_nonsample", "internal_sample", "diploid_cherry", "diploid_two_tree"]
 
 
